@@ -44,7 +44,12 @@ def main():
         if hasattr(mod, 'recheck') and isinstance(r, dict) and not r.get('no_failing_input_found'):
             # execute the stored input again on the current tree: exit 1 when it (still) fails, 0 when it does not
             print('what was reported:', obj.get('what'))
-            why = mod.recheck(r)
+            try:
+                why = mod.recheck(r)
+            except Exception:  # noqa: BLE001
+                # the stored input could not be executed at all: neither "fails" nor "does not fail"
+                traceback.print_exc()
+                sys.exit(2)
             print('on the current tree:', why if why else 'the stored input does not fail')
             sys.exit(1 if why else 0)
         rc = mod.replay(obj)
